@@ -61,9 +61,21 @@ def n_runs(a):
     return len(run_structure(a))
 
 
+def scribble(arr):
+    """overwrite a caller-owned array with different content (what a caller may do with its own array afterwards)"""
+    if isinstance(arr, np.ndarray) and arr.size and arr.flags.writeable:
+        with np.errstate(all="ignore"):
+            arr[...] = 1 if not arr.astype(bool).any() else 0
+
+
 def encode(a):
+    """RunLengthArray.from_array of a private copy of `a`; the copy is overwritten right afterwards: an encoded array is a
+    value of its own and must not follow later writes to the array it was made from"""
     from npstructures import RunLengthArray
-    return RunLengthArray.from_array(a)
+    src = np.array(a, copy=True)
+    x = RunLengthArray.from_array(src)
+    scribble(src)
+    return x
 
 
 def decode(x):
